@@ -8,6 +8,7 @@ import (
 	"os"
 	"runtime"
 	"strings"
+	"sync"
 	"sync/atomic"
 	"time"
 
@@ -242,6 +243,20 @@ func (ch c19) Run(c *core.Ctx) {
 				rng := core.NewRng(c.Seed, "C19", ci, e*1000+hi)
 				ch.runConn(c, env, cfg, ending, rng)
 			}
+		}
+		// several connections at the same time on this server (accepted within the same moment): every
+		// callback of a connection sees that connection's context - its parameters, its address, its type map
+		if ci%3 == 0 && cfg.FailAt < 0 && c.Begin(ci*10000+9000) && c.NViol() < 10 {
+			var wg sync.WaitGroup
+			for k := 0; k < 8; k++ {
+				wg.Add(1)
+				go func(k int) {
+					defer wg.Done()
+					ch.runConn(c, env, cfg, []string{"terminate", "eof"}[k%2], core.NewRng(c.Seed, "C19g", ci, k))
+				}(k)
+			}
+			wg.Wait()
+			c.Count("connections_served_at_the_same_time", 8)
 		}
 		env.Stop()
 	}
